@@ -59,6 +59,7 @@ func NewShardManager(config ShardManagerConfig) *ShardManager {
 func (sm *ShardManager) loadShard(collection models.Collection, shardId string) (*loadedShard, error) {
 	shardDir := filepath.Join(sm.cfg.RootDir, USERCOLSDIR, collection.UserId, collection.Id, shardId)
 	sm.logger.Debug().Str("shardDir", shardDir).Msg("LoadShard")
+	verifYield("req.lockStore", shardDir)
 	sm.shardLock.Lock()
 	defer sm.shardLock.Unlock()
 	if ls, ok := sm.shardStore[shardDir]; ok {
@@ -89,6 +90,7 @@ func (sm *ShardManager) loadShard(collection models.Collection, shardId string) 
 		doneCh:   make(chan bool),
 	}
 	sm.shardStore[shardDir] = ls
+	verifYield("ev.opened", ls)
 	// ---------------------------
 	// Setup cleanup goroutine
 	go sm.cleanupRoutine(ls, collection.UserPlan.ShardBackupFrequency, collection.UserPlan.ShardBackupCount)
@@ -99,6 +101,7 @@ func (sm *ShardManager) cleanupRoutine(ls *loadedShard, backupFrequency, backupC
 	shardDir := ls.shardDir
 	timeoutDuration := time.Duration(sm.cfg.ShardTimeout) * time.Second
 	timer := time.NewTimer(timeoutDuration)
+	timer = verifTimer(shardDir, timer)
 	defer sm.logger.Debug().Str("shardDir", shardDir).Msg("Stopping shard cleanup goroutine")
 	for {
 		select {
@@ -115,6 +118,7 @@ func (sm *ShardManager) cleanupRoutine(ls *loadedShard, backupFrequency, backupC
 				timer.Reset(timeoutDuration)
 			}
 		case <-timer.C:
+			verifYield("cl.fired", ls)
 			sm.logger.Debug().Str("shardDir", shardDir).Msg("Unloading shard")
 			ls.mu.Lock()
 			defer ls.mu.Unlock() // we commit to exiting the cleanup goroutine here
@@ -143,8 +147,10 @@ func (sm *ShardManager) cleanupRoutine(ls *loadedShard, backupFrequency, backupC
 			}
 			// We set the shard to nil so that other goroutines know it
 			// is closed in case they are waiting on the lock
+			verifYield("ev.closed", ls)
 			sm.logger.Debug().Str("shardDir", shardDir).Msg("Removing loaded shard")
 			ls.shard = nil
+			verifYield("cl.lockStore", ls)
 			sm.shardLock.Lock()
 			delete(sm.shardStore, shardDir)
 			sm.shardLock.Unlock()
@@ -162,6 +168,7 @@ func (sm *ShardManager) DoWithShard(collection models.Collection, shardId string
 	if err != nil {
 		return fmt.Errorf("could not load shard: %w", err)
 	}
+	verifYield("req.rlock", ls)
 	ls.mu.RLock()
 	defer ls.mu.RUnlock()
 	// This nil check is necessary because the shard may have been unloaded
@@ -178,6 +185,7 @@ func (sm *ShardManager) DeleteCollectionShards(collection models.Collection) ([]
 	// other shard loading too. In the future we can make this more efficient by
 	// having a lock per collection. We don't expect too many delete collection
 	// requests and this function in general should be fast.
+	verifYield("del.lockStore", collection.Id)
 	sm.shardLock.Lock()
 	defer sm.shardLock.Unlock()
 	// ---------------------------
@@ -204,6 +212,7 @@ func (sm *ShardManager) DeleteCollectionShards(collection models.Collection) ([]
 		shardDir := filepath.Join(collectionDir, shardDirEntry.Name())
 		// Is the shard already loaded?
 		if ls, ok := sm.shardStore[shardDir]; ok {
+			verifYield("del.lockLs", ls)
 			ls.mu.Lock()
 			if ls.shard != nil {
 				// The shard is loaded, we can't delete it before unloading it.
@@ -218,6 +227,7 @@ func (sm *ShardManager) DeleteCollectionShards(collection models.Collection) ([]
 					// Not much we can do here, because we will be purging the shard
 					sm.logger.Error().Err(err).Str("shardDir", shardDir).Msg("Failed to close shard")
 				}
+				verifYield("ev.closed", ls)
 				ls.shard = nil
 			}
 			ls.mu.Unlock()
@@ -225,6 +235,7 @@ func (sm *ShardManager) DeleteCollectionShards(collection models.Collection) ([]
 		delete(sm.shardStore, shardDir)
 		// The shard is not loaded, since we have exclusive lock on the
 		// shardStore, we can directly delete it
+		verifYield("del.remove", shardDir)
 		if err := os.RemoveAll(shardDir); err != nil {
 			sm.logger.Error().Err(err).Str("shardDir", shardDir).Msg("Failed to delete shard")
 			// Again, not much we can do here, because the shard can no longer
